@@ -39,12 +39,13 @@ VALUE_TABLE = {
     "text": {"good": ["line1\nline2", "plain"], "text": ["t\nu"], "near": [5]},
     "url": {"good": ["http://x.org/a"], "text": ["file:///tmp/x"], "near": [7]},
     "person": {"good": ["Doe, J", "Jane"], "text": ["J. D."], "near": [7]},
-    "date": {"good": [{"date": "2020-01-02"}, {"date": "1999-12-31"}],
+    "date": {"good": [{"date": "2020-01-02"}, {"date": "1999-12-31"}, {"date": "0800-12-25"}],
              "text": ["2020-01-02", "2020-1-2"],
              "near": ["2020-13-01", "01.02.2020", {"datetime": "2020-01-02T03:04:05"}, 20200102]},
     "time": {"good": [{"time": "12:34:56"}, {"time": "00:00:00"}, {"time": "12:34:56+02:00"}], "text": ["12:34:56", "1:2:3"],
              "near": ["25:00:00", "12:34", {"time": "12:34:56.789000"}, 1234]},
-    "datetime": {"good": [{"datetime": "2020-01-02T03:04:05"}, {"datetime": "2020-01-02T03:04:05+02:00"},
+    "datetime": {"good": [{"datetime": "2020-01-02T03:04:05"}, {"datetime": "0999-01-02T03:04:05"},
+                          {"datetime": "2020-01-02T03:04:05+02:00"},
                           {"datetime": "2020-01-02T03:04:05.5-01:00"}], "text": ["2020-01-02 03:04:05"],
                  "near": ["2020-01-02", "2020-01-02T03:04:05",
                           {"datetime": "2020-01-02T03:04:05.123456"}, {"date": "2020-01-02"}]},
@@ -403,6 +404,8 @@ class Gen(object):
             return None
         op["op"] = "insert"
         op["i"] = self.pick([0, 0, 1, 2, -1, 5])
+        if self.fault() and self.chance(0.12):
+            op["i"] = self.pick(["x", 1.5, None])      # a position list.insert refuses
         return op
 
     def g_extend(self):
